@@ -460,6 +460,57 @@ def rule_layered_cache(ctx: Ctx) -> RuleResult:
     return rr
 
 
+def rule_depends_on_returned_canvas(ctx: Ctx) -> RuleResult:
+    """CanvasCache.store() reads `depends_on` from the canvas the widget *returns*.  A render() that declares extra
+    dependencies with <canvas>.set_depends(...) (items drawn with 0 rows are not part of the canvas but can grow)
+    has to return that very object: a later `out = CompositeCanvas(out)` (to pad / trim to the box size) wraps it
+    in a canvas without depends_on, store() falls back to the drawn children and the edge to the hidden items is
+    lost - the cached rendering survives their change (seed C06-r8a swapped the two tail blocks of Pile.render)."""
+    from ..rules.defuse import DefUse
+
+    p = ctx.p
+    rr = RuleResult("ORDER", "C06.14", "a canvas given extra dependencies with set_depends() is the object render() returns: it is not re-wrapped afterwards", floor=4)
+    for fi in p.functions.values():
+        if not fi.module.name.startswith("urwid.widget") or fi.is_lambda or fi.name != "render":
+            continue
+        calls = [c for c in fi.own_nodes() if isinstance(c, ast.Call) and isinstance(c.func, ast.Attribute) and c.func.attr == "set_depends" and isinstance(c.func.value, ast.Name)]
+        if not calls:
+            continue
+        du = DefUse(fi)
+        cfg = du.cfg
+        for c in calls:
+            name = c.func.value.id
+            cn = next((n for n in cfg.nodes for e in _nx(n) for x in walk_no_nested(e) if x is c), None)
+            if cn is None:
+                continue
+            redefs = [dn for dn, v, how in du.defs.get(name, []) if dn in cfg.reachable([cn], labels=("n", "T", "F")) and dn is not cn]
+            rets = [r for r in cfg.nodes if r.kind == "return" and r in cfg.reachable([cn], labels=("n", "T", "F"))]
+            other = [r for r in rets if not (isinstance(r.ast.value, ast.Name) and r.ast.value.id == name)]
+            rr.inst(f"{short(fi)}: {norm(c, 40)}", True, {"render": short(fi), "call": norm(c, 50), "rewrapped_afterwards": [norm(d.stmt, 40) for d in redefs][:2], "returns_other_object": [norm(r.ast, 30) for r in other][:2]} if len(rr.samples) < 8 else None)
+            for d in redefs:
+                rr.add(finding("ORDER", fi, d.stmt, f"`{norm(d.stmt, 50)}` replaces `{name}` after `{norm(c, 40)}`: the canvas that carries the declared dependencies is wrapped in a new one without them, CanvasCache.store() reads depends_on from the returned canvas only - a change of a hidden (0-row) item no longer invalidates this rendering", construct=f"{fi.cls.name if fi.cls else fi.name}.render: canvas re-wrapped after set_depends"))
+    return rr
+
+
+def _nx(n):
+    from ..rules.util import node_exprs
+
+    return node_exprs(n)
+
+
+def rule_list_mutators_notify(ctx: Ctx) -> RuleResult:
+    """Pile / Columns / GridFlow invalidate themselves from the modified callback of their contents list; the override
+    layer (MonitoredFocusList) must keep going through the wrapped MonitoredList method: exactly one super().<same
+    mutator>() on every path (C16.2).  `list.reverse(self)` in place of `super().reverse()` skips the callback - with
+    the focus in the exact middle of an odd-length list no focus change is reported either and nothing invalidates
+    (seed C06-r8b)."""
+    from . import c16
+
+    rr = c16.rule_order(ctx)
+    rr.clause = "C06.15"
+    return rr
+
+
 def run(ctx: Ctx):
     p = ctx.p
     out = [
@@ -483,6 +534,8 @@ def run(ctx: Ctx):
         alias.run_alias(p, "C06.10", floor=12),
         inv.run_inv_before_emit(p, "C06.12", floor=1),
         alias.run_inplace_own(p, "C06.11", ["urwid.canvas"], floor=6, exempt={"shards": "shared on purpose, copy-on-write decided path by path by FRESHLIST (C06.2c)"}),
+        rule_depends_on_returned_canvas(ctx),
+        rule_list_mutators_notify(ctx),
     ]
     return out
 
